@@ -40,6 +40,13 @@ CLAIMED = {
         design_ref="DESIGN.md §3.5",
         note="Generic-path gates neither read nor write the record: the simulated user resets it after them unless the gate is a single-site unitary; all compressions use cutoff=0; no fault kinds exist in this sequential code besides rejected calls and abandoned generators.",
     ),
+    "C07": dict(
+        category="exploration",
+        technique="deterministic simulation: seeded interleaving of gate application, parameter updates, forks, queries, suspended sampler generators, rejected gates, abandoned generators and settrace-injected interrupts inside cached readers, over all five circuit simulator classes; dense state-vector reference model built from the circuit's own gate record",
+        text="Up to three circuit objects (Circuit in every contract mode, CircuitDense, CircuitMPS, CircuitPermMPS, CircuitMPSLazy; 2-5 qubits) driven over the full registered gate vocabulary with drawn parameters, controls, raw unitaries, SWAP/IDEN, parametrize and all spellings; every gate's matrix is checked unitary; after rejected gates the record must be unchanged and later queries still exact; every reader (to_dense, amplitude, uni, partial_trace, local_expectation incl. lists and dtype, compute_marginal with fix, simplified psi / rdm, fidelity_estimate) is compared with the model; samplers are generators suspended across writer steps and must yield supported strings; interrupts are raised at a recorded line inside readers of the exact classes and later queries must still be right. Sampling: evidence, not proof.",
+        design_ref="DESIGN.md §3.4",
+        note="sample_gate_by_gate needs networkx, which is not installed here, and did not run; sample_chaotic only with every qubit as marginal qubit (otherwise it is approximate by design); PEPS/PEPO simple-update circuits truncate by construction and are out; a suspended sampler is accepted when its sample is supported on any state held since it first ran.",
+    ),
 }
 
 NOT_APPLICABLE = {
